@@ -5,6 +5,7 @@ import asyncio
 
 GATE = None          # one asyncio.Event per scenario; set = every running worker returns
 STARTED = []         # (args, kwargs) of every worker invocation, in order
+LOUD_PRINTED = 0     # lines printed on sys.stdout by `loud` workers (user code may print; it is not the session's output)
 
 
 def reset():
@@ -33,6 +34,17 @@ async def w(*args, **kwargs):
     STARTED.append((args, tuple(sorted(kwargs.items()))))
     gate = GATE
     await gate.wait()
+    return len(args)
+
+
+async def loud(*args, **kwargs):
+    """as `w`, and prints a line on the process's stdout when it returns (user code may do that)"""
+    global LOUD_PRINTED
+    STARTED.append((args, tuple(sorted(kwargs.items()))))
+    gate = GATE
+    await gate.wait()
+    LOUD_PRINTED += 1
+    print("LOUD")
     return len(args)
 
 
